@@ -488,14 +488,19 @@ class UpdateCollection(Message):
             mp_announce = MPNLRICollection.from_routed(announce_routed, {}, afi, safi)
             mp_withdraw = MPNLRICollection(withdraw_nlris, {}, afi, safi)
 
-            for mprnlri in mp_announce.packed_reach_attributes(negotiated, msg_size - len(withdraws + announced)):
-                if mp_reach:
-                    yield self._message(
-                        UpdateCollection.prefix(withdraws) + UpdateCollection.prefix(attr + mp_reach) + announced
-                    )
-                    announced = b''
-                    withdraws = b''
-                mp_reach = mprnlri
+            try:
+                for mprnlri in mp_announce.packed_reach_attributes(negotiated, msg_size - len(withdraws + announced)):
+                    if mp_reach:
+                        yield self._message(
+                            UpdateCollection.prefix(withdraws) + UpdateCollection.prefix(attr + mp_reach) + announced
+                        )
+                        announced = b''
+                        withdraws = b''
+                    mp_reach = mprnlri
+            except RuntimeError:
+                # the attributes leave no room for one NLRI of this family: what the IPv4 path above does with such a
+                # set (log and drop) - raised from here the error ended the session each time the routes were sent
+                log.critical(lazymsg('update.pack.error reason=attributes_too_large'), 'parser')
 
             if include_withdraw and mp_reach and withdraw_nlris:
                 # the first MP_UNREACH_NLRI shares its message with the last MP_REACH_NLRI: when what that one
